@@ -14,6 +14,7 @@ if [ $layerb_ok = 1 ] && [ -x "$GO123/go" ]; then
   ( cd "$REPO" && GOFLAGS=-mod=mod GOPROXY=off GOTOOLCHAIN=local GOWORK=off "$LLGO_BUILD_GO" build -tags llvm14,verif,dev -overlay "$B/overlay.json" -o "$B/llgo" ./cmd/llgo ) >"$B/build.log" 2>&1 || { echo "vcheck: note: llgo could not be built from the working tree here; layer B (compiled map interpreter) is skipped:" >&2; tail -5 "$B/build.log" >&2; layerb_ok=0; }
   [ $layerb_ok = 1 ] && { "$VERIF/toolchain/mkshim.sh" "$B/shim" >/dev/null || layerb_ok=0; }
   [ $layerb_ok = 1 ] && { /usr/lib/llvm-14/bin/clang -O1 -shared -fPIC -o "$B/libdetrand.so" "$VERIF/toolchain/libdetrand.c" || layerb_ok=0; }
+  [ $layerb_ok = 1 ] && /usr/lib/llvm-14/bin/clang -O1 -shared -fPIC -Wno-pointer-bool-conversion -o "$B/libdetsched.so" "$VERIF/toolchain/libdetsched.c" -ldl -lpthread && export VERIF_B_SCHEDLIB=$B/libdetsched.so
   [ $layerb_ok = 1 ] && export VERIF_B_LLGO=$B/llgo VERIF_B_SHIM=$B/shim VERIF_B_RANDLIB=$B/libdetrand.so VERIF_B_TMP=$B/tmp VERIF_B_GO123=$GO123 VERIF_B_REPO=$REPO VERIF_B_CACHE=$B/cache
   export VERIF_B_GOCACHE=$("$GO123/go" env GOCACHE) VERIF_B_GOMODCACHE=$("$GO123/go" env GOMODCACHE)
 fi
